@@ -34,10 +34,11 @@ FIXED = [
  ("C17", "173b5fc", "xobject arrays passed as pointer-to-scalar kernel arguments were cast to '<ArrayClassName>*' (cffi: undefined type name)", "corpus/C17/xobject_array_as_pointer.json"),
  ("C10", "20494f4", "a whole-array update that moves items of dynamic size left the updating handle's cached item offsets stale (reads returned other items' bytes)", "corpus/C10/root_update_moves_items.json"),
  ("C09", "20494f4", "a copy of an array of dynamic items shared the source's Python-side item-offset cache (a live view of the source buffer's table when the source is a view)", "corpus/C09/copy_shares_offset_cache.json"),
+ ("C10", "be24ecd", "Struct._update by byte copy left the handle's cached offsets of dynamic fields stale when the assigned struct splits the same size differently", "corpus/C10/struct_other_split_by_copy.json"),
 ]
-_STALE = ("a whole-array update that moves the items of a root array of dynamically sized items, made through a view (_from_buffer) "
-          "of that array, leaves the constructor handle's cached item offsets stale: reads through the old handle return other items' bytes "
-          "(Array keeps a Python-side copy of the item-offset table per handle; only the updating handle is refreshed)")
+_STALE = ("a whole-object update that moves the parts of a root array of dynamically sized items (or of a root struct with two or more dynamic "
+          "fields), made through a view (_from_buffer) of that object, leaves the constructor handle's cached offsets stale: reads through the old "
+          "handle return other parts' bytes (Array and Struct keep a Python-side copy of the offset table per handle; only the updating handle is refreshed)")
 OPEN = [
  {"status": "open", "property": "C03", "id": "C03-stale-root-handle", "feature": "root array of dynamic items + whole-array update with via != handle, then an access through the constructor handle",
   "call_site": "xobjects/array.py Array._update / Array.__init__ (self._offsets)", "what": _STALE, "example": "known/C03_stale_root_handle.json"},
